@@ -377,19 +377,36 @@ def run(R):
     # ---------------------------------------------------------------- R4 inner status = outer status
     R.describe('C20.R4', 'the embedded google.rpc.Status is built from the same code and message as the outer tonic::Status, always (also with no details attached)')
     with R.guard('C20.R4'):
+        gdb = ty.body('richer_error::gen_details_bytes')
+        # the shared tail may have moved into the helper as a whole: the helper then builds the outer status itself
+        # (`fn status_with_packed_details(code, message, details, metadata) -> Status`); the constructors hand over and return
+        tail_in_helper = len(gdb.calls(name='with_details_and_metadata')) >= 1
+        MSG_T = r"^(&('\w+ )?str|(\w+::)*String)$"
+        WRAP = {'deref', 'as_str', 'as_ref', 'borrow', 'clone', 'to_owned', 'to_string'}
         for nm in ('with_error_details_and_metadata', 'with_error_details_vec_and_metadata'):
             b = ty.body(re.compile(r'<tonic::Status as richer_error::StatusExt>::%s$' % nm))
             gd = b.calls(name='gen_details_bytes')
             wd = b.calls(name='with_details_and_metadata')
+            if tail_in_helper:
+                R.check(len(gd) == 1 and not wd, 'C20.R4', '%s:sites' % nm, site(b), 'calls of the shared status builder %d, own with_details_and_metadata %d' % (len(gd), len(wd)))
+                if len(gd) == 1:
+                    GC, GM = param_of_type(gdb, r'(^|::)Code$'), param_of_type(gdb, MSG_T)
+                    c1 = b.origin(gd[0][1]['args'][GC - 1])
+                    R.check(c1[0] == 'arg', 'C20.R4', '%s:same-code' % nm, site(b, gd[0][0]), 'code handed to the shared builder = %s' % show(c1))
+                    m1 = through_calls(b.origin(gd[0][1]['args'][GM - 1]), WRAP)
+                    R.check('message' in show(m1), 'C20.R4', '%s:same-message' % nm, site(b, gd[0][0]), 'message handed to the shared builder = %s' % show(m1)[:60])
+                    rt = mirlib.returned_terms(b)
+                    R.check(len(rt) == 1 and is_call(strip_refs(rt[0][1]), name='gen_details_bytes') and all(b.dominates(gd[0][0], rb) for rb in b.return_blocks()), 'C20.R4', '%s:unconditional' % nm, site(b, gd[0][0]),
+                            'the status returned is the one the shared builder made, on every path')
+                continue
             R.check(len(gd) == 1 and len(wd) == 1, 'C20.R4', '%s:sites' % nm, site(b), 'gen_details_bytes %d, with_details_and_metadata %d' % (len(gd), len(wd)))
             if gd and wd:
-                gdb = ty.body('richer_error::gen_details_bytes')
                 GC, GM, GD = param_of_type(gdb, r'(^|::)Code$'), param_of_type(gdb, r"^&('\w+ )?str$"), param_of_type(gdb, r'Vec<.*Any>')
                 c1, c2 = b.origin(gd[0][1]['args'][GC - 1]), b.origin(wd[0][1]['args'][0])
                 R.check(c1 == c2 and c1[0] == 'arg', 'C20.R4', '%s:same-code' % nm, site(b, gd[0][0]), 'inner code = %s, outer code = %s' % (show(c1), show(c2)))
                 m1, m2 = b.origin(gd[0][1]['args'][GM - 1]), b.origin(wd[0][1]['args'][1])
-                core1 = through_calls(m1, {'deref', 'as_str', 'as_ref', 'borrow', 'clone', 'to_owned', 'to_string'})
-                core2 = through_calls(m2, {'deref', 'as_str', 'as_ref', 'borrow', 'clone', 'to_owned', 'to_string'})
+                core1 = through_calls(m1, WRAP)
+                core2 = through_calls(m2, WRAP)
                 same = core1 == core2 or show(core1) == show(core2)
                 R.check(same and 'message' in show(core1), 'C20.R4', '%s:same-message' % nm, site(b, gd[0][0]), 'inner message = %s, outer message = %s' % (show(m1)[:60], show(m2)[:60]))
                 d = b.origin(wd[0][1]['args'][2])
@@ -405,7 +422,7 @@ def run(R):
             c = g.origin(ops[f.index('code')])
             m = g.origin(ops[f.index('message')])
             d = g.origin(ops[f.index('details')])
-            GC, GM, GD = param_of_type(g, r'(^|::)Code$'), param_of_type(g, r"^&('\w+ )?str$"), param_of_type(g, r'Vec<.*Any>')
+            GC, GM, GD = param_of_type(g, r'(^|::)Code$'), param_of_type(g, MSG_T if tail_in_helper else r"^&('\w+ )?str$"), param_of_type(g, r'Vec<.*Any>')
             okg = c[0] == 'cast' and mentions_arg(c[2], GC) and mentions_arg(m, GM) and strip_refs(d)[:2] == ('arg', GD)
             R.check(okg, 'C20.R4', 'gen:fields', site(g, bb, i), 'pb::Status{code: %s, message: %s, details: %s}' % (show(c), show(m)[:40], show(d)))
             R.check(all(g.dominates(bb, rb) for rb in g.return_blocks()) and len(g.return_blocks()) == 1, 'C20.R4', 'gen:always-encodes', site(g), 'the status is built and encoded on every path (no early return for empty details)')
@@ -416,7 +433,19 @@ def run(R):
         # .. or Bytes::from(status.encode_to_vec())
         ev_ = g.calls(name='encode_to_vec')
         vec_form = len(ev_) == 1 and len(rt) == 1 and is_call(strip_refs(rt[0][1]), name='from') and 'Bytes' in strip_refs(rt[0][1])[1] + str(strip_refs(rt[0][1])[4].get('self_ty')) and is_call(strip_refs(strip_refs(rt[0][1])[2][0]), name='encode_to_vec')
-        R.check(frozen or vec_form, 'C20.R4', 'gen:returns-encoding', site(g), 'returns the frozen buffer the status was encoded into (or Bytes::from(encode_to_vec()))')
+        if tail_in_helper:
+            # the helper returns the outer status: built from its own code / message parameters and the bytes just encoded
+            wd = g.calls(name='with_details_and_metadata')
+            R.check(len(wd) == 1, 'C20.R4', 'gen:one-outer-status', site(g), 'the shared builder makes the outer status in one place (%d); a second one would carry other details' % len(wd))
+            wa = wd[0][1]['args']
+            oc, om, od = g.origin(wa[0]), through_calls(g.origin(wa[1]), WRAP), strip_refs(g.origin(wa[2]))
+            R.check(strip_refs(oc)[:2] == ('arg', GC), 'C20.R4', 'gen:outer-code', site(g, wd[0][0]), 'outer status code = %s (the code parameter the embedded status is built from)' % show(oc))
+            R.check(strip_refs(om)[:2] == ('arg', GM), 'C20.R4', 'gen:outer-message', site(g, wd[0][0]), 'outer status message = %s (the message parameter the embedded status is built from)' % show(om)[:60])
+            enc_ok = (len(en) == 1 and is_call(od, name='freeze')) or (len(g.calls(name='encode_to_vec')) == 1 and is_call(od, name='from') and is_call(strip_refs(od[2][0]), name='encode_to_vec'))
+            R.check(enc_ok, 'C20.R4', 'gen:returns-encoding', site(g, wd[0][0]), 'details = the frozen buffer the status was encoded into (or Bytes::from(encode_to_vec())): %s' % show(od)[:60])
+            R.check(len(rt) == 1 and is_call(strip_refs(rt[0][1]), name='with_details_and_metadata') and len(ag) == 1 and g.dominates(ag[0][0], wd[0][0]), 'C20.R4', 'gen:returns-outer-status', site(g, wd[0][0]), 'the helper returns that status, on every path')
+        else:
+            R.check(frozen or vec_form, 'C20.R4', 'gen:returns-encoding', site(g), 'returns the frozen buffer the status was encoded into (or Bytes::from(encode_to_vec()))')
 
     # ---------------------------------------------------------------- R5 decode side is total
     R.describe('C20.R5', 'check_* propagate DecodeError with ?; get_* fall back to default / None; no panic site is reachable from the decoders and getters')
